@@ -473,6 +473,14 @@ func c20Exec(c *core.Ctx, cs c20Case) {
 				return
 			}
 		}
+		// positional parameters far beyond the last one (at and above 2^31, 2^63, 2^64): unset
+		for _, n := range []string{"4294967296", "9223372036854775807", "9223372036854775808", "18446744073709551615", "18446744073709551616", "99999999999999999999"} {
+			if gv, gset := env.Get(n); gset {
+				c.Violation("get", key(i)+" => Get("+n+")", "unset (there are 2 positional parameters)", fmt.Sprintf("(%q, set=true)", gv.Value), "")
+				return
+			}
+			c.Eval(1)
+		}
 		got := map[string]string{}
 		dup := false
 		env.Walk(func(v interp.Var) {
